@@ -112,6 +112,16 @@ class KDict(Kind):
         return (self.k, self.v)
 
 
+class KSet(Kind):
+    """set (value semantics): characteristic function over the flattened element components"""
+
+    def __init__(self, elem):
+        self.elem = elem
+
+    def key(self):
+        return (self.elem,)
+
+
 class KFunc(Kind):
     """A Python-level callable known statically (function name / lambda AST)."""
 
@@ -152,6 +162,8 @@ def flat(kind):
         assert len(ks) == 1, "dict keys must be scalar"
         return [z3.ArraySort(ks[0], B)] + [z3.ArraySort(ks[0], s) for s in flat(kind.v)] + \
             [I, I, z3.ArraySort(I, ks[0]), z3.ArraySort(ks[0], I)]
+    if isinstance(kind, KSet):
+        return [z3.ArraySort(*(flat(kind.elem) + [B]))]
     if isinstance(kind, KFunc):
         return []
     raise TypeError(kind)
@@ -185,7 +197,7 @@ def parse_kind(s):
         parts.append(cur)
         ks = [parse_kind(p) for p in parts]
         return {"list": lambda: KList(ks[0]), "tuple": lambda: KTuple(*ks), "arr2": lambda: KArr2(ks[0]),
-                "opt": lambda: KOpt(ks[0]), "dict": lambda: KDict(ks[0], ks[1])}[head]()
+                "opt": lambda: KOpt(ks[0]), "dict": lambda: KDict(ks[0], ks[1]), "set": lambda: KSet(ks[0])}[head]()
     if s[0].isupper() or s[0] == "_":
         return KRef(s)
     raise ValueError("unknown kind " + s)
